@@ -187,8 +187,12 @@ func runC04(c *mon.Ctx) {
 		signer := pick(r, w.IdP)
 		na := 2 + r.IntN(2)
 		rec := sim.GenuineResponse(w.Env, na)
+		sharedID := r.IntN(4) == 0 // the IdP (mis)uses one ID for all top-level assertions: identity is the element, not the ID
 		for i, a := range rec.Assertions {
 			a.ID = sim.S(fmt.Sprintf("_top%d-%08x", i, r.Uint32()))
+			if sharedID {
+				a.ID = sim.S("_shared-id")
+			}
 		}
 		base, err := sim.BuildResponse(rec, sim.PlainStyle())
 		if err != nil {
@@ -233,7 +237,7 @@ func runC04(c *mon.Ctx) {
 			continue
 		}
 		doc := sim.DocString(d)
-		cs.Desc("tops=%d host=%d nested=%d ownSig=%v signer=%s", len(tops), host, nestedN, ownSig, signer.Key.Name)
+		cs.Desc("tops=%d host=%d nested=%d ownSig=%v sharedID=%v signer=%s", len(tops), host, nestedN, ownSig, sharedID, signer.Key.Name)
 		cs.Input([]byte(doc))
 		sp, _, _ := NewSP(w.Now, signer)
 		sp.AllowMissingAttributes = true
@@ -255,7 +259,7 @@ func runC04(c *mon.Ctx) {
 			continue
 		}
 		for i := range resp.Assertions {
-			if resp.Assertions[i].ID != tops[i].SelectAttrValue("ID", "") {
+			if !sharedID && resp.Assertions[i].ID != tops[i].SelectAttrValue("ID", "") {
 				cs.Violation("assertion-order-or-identity", "returned assertion %d has ID %s, the signed Response has %s there", i, resp.Assertions[i].ID, tops[i].SelectAttrValue("ID", ""))
 				break
 			}
